@@ -746,6 +746,12 @@ class Gen:
         if refs is None:
             return None
         ts = "".join(m.types[i] for i in refs)
+        if ((op.name == "lshift" and ts[1] in "ibI") or (op.name in ("rshift", "pow") and ts[1] == "I")) and \
+                isinstance(m.refval(refs[1]), int) and abs(m.refval(refs[1])) > 4096:
+            # x << k multiplies by 2**k (and shifts / powers by a SECRET amount compute 2**k, x**k on the values): an amount drawn
+            # from the operand range (billions) makes gigabyte integers - no program shifts by that much, and the run would end
+            # in MemoryError (and in a different place when replayed)
+            return None
         stmt = ["op", op.name, refs]
         if op.name in INPLACE and ts[0] in "IBF" and draw(st.integers(0, 7)) == 0:
             stmt.append("inplace")
